@@ -373,6 +373,17 @@ class Fail(Exception):
 def _check_item(item, key, src, clause_prefix=""):
     from moclo.record import CircularRecord
 
+    if src is None:
+        # which member's plasmid wins is left open here (see _propagate_growth): judge the
+        # parts of the statement that do not depend on it
+        if getattr(item, "id", None) != key:
+            raise Fail("C20.item-id", "item looked up under %r carries id %r" % (key, getattr(item, "id", None)), key, getattr(item, "id", None))
+        rec = item.entity.record
+        if not isinstance(rec, CircularRecord) or rec.id != key:
+            raise Fail("C20.record", "item %r does not hold a circular record with that id" % (key,))
+        if item.resistance not in KNOWN_ANTIBIOTICS:
+            raise Fail("C20.resistance", "item %r has unknown resistance %r" % (key, item.resistance))
+        return {"id": item.id, "loose": True}
     pm = plasmid(src)
     if getattr(item, "id", None) != key:
         raise Fail("C20.item-id", "item looked up under %r carries id %r" % (key, getattr(item, "id", None)), key, getattr(item, "id", None))
@@ -498,6 +509,8 @@ def _do_op(sim, cat, stores, regs, models, op):
                     exact = dict(before)
                     for kk, src in mm["keys"].items():
                         exact.setdefault(kk, src)
+                    model.setdefault("members", []).append(op["member"])
+                    _propagate_growth(models, r, {kk: src for kk, src in hi.items() if kk not in before})
                     try:
                         if op.get("via") == "lshift":
                             res = reg << member
@@ -576,7 +589,7 @@ def _do_op(sim, cat, stores, regs, models, op):
                     key, item = (v if k == "items" else (v.id, v))
                     if key not in model["keys"]:
                         raise Fail("C20.lookup", "%s() yields an entry for unknown key %r" % (k, key))
-                    res.append(_check_item(item, key, model["keys"][key]))
+                    res.append(_check_item(item, key, _model_src(model, key)))
                 ev["result"] = sorted(x["id"] for x in res)
             elif k in ("getitem", "contains", "get"):
                 key = _mk_key(op["key"])
@@ -663,9 +676,35 @@ def _model_has(model, key):
 
 
 def _model_src(model, key):
+    if key in model.get("loose", ()):
+        return None
     if "lo" in model and key in model["lo"]:
         return model["lo"][key]
     return model["keys"][key]
+
+
+def _propagate_growth(models, r, added, seen=None):
+    """A combined registry `r` that is itself a member of other combined registries has
+    (possibly) gained the keys `added`.  The statement does not say whether a combination
+    is a snapshot of its members at the time they were added (the current code) or a live
+    union (an equally legitimate design), so every registry containing `r` may or may not
+    show the new keys, and for a key it already had through a LATER member either plasmid
+    may win.  The next fault-free observation fixes the key set again."""
+    seen = seen if seen is not None else set()
+    for h, m in models.items():
+        if m.get("kind") == "combined" and r in m.get("members", ()) and h not in seen and h != r:
+            seen.add(h)
+            lo = dict(m.get("lo") or m["keys"])
+            hi = dict(m.get("hi") or m["keys"])
+            for k, src in added.items():
+                if k in hi:
+                    if hi[k] != src:
+                        m.setdefault("loose", set()).add(k)
+                else:
+                    hi[k] = src
+            if set(hi) != set(lo):
+                m["lo"], m["hi"] = lo, hi
+            _propagate_growth(models, h, added, seen)
 
 
 def _resolve_uncertainty(model, keyset, n):
